@@ -29,7 +29,9 @@
 (*  ot      recv_i = s_{choice_i, i} and s_{0,i} # s_{1,i} for every instance  *)
 (*  vole    c_i + d_i = a_i * b for every component                           *)
 (* Events of probability about 1/q that the code documents as refusals are    *)
-(* the named guards below; they accept a refusal, never an output.            *)
+(* the named guards below; they accept a refusal, never an output, and only   *)
+(* where 1/q is not negligible (groups below 128 bits; the production groups   *)
+(* have 253 - 256 bits, there such a refusal is reported).                     *)
 EXTENDS Policy, TLC, Json
 
 Trace == ndJsonDeserialize("trace.ndjson")
